@@ -21,6 +21,14 @@ The payload (``coupled_systems()`` draws it, everything is a JSON primitive)
              "tanh": {"ya": [[0], [1]]}}            # optional smooth term: block @ tanh(input)
          ]}]}
 
+A discipline entry may carry ``"state": [2, -1]`` (non-zero integers, one per component of its FIRST
+output ``w``; only for disciplines that do not read ``w`` themselves): the gemseo discipline is then
+written in residual form - ``w`` is a state variable (input and output), an extra output
+``r_<w> = diag(state) (G(inputs) - w)`` is its residual, ``io.residual_to_state_variable = {r_w: w}`` and the
+discipline solves its own state equations (``state_equations_are_solved = True``: it returns
+``w = G(inputs)``, ``r_w = 0`` and the partials ``dr/dw = -diag(state)``, ``dr/du = diag(state) dG/du``).
+The mathematical system, hence the reference model, is unchanged.
+
 For an output ``o`` of a discipline::
 
     o = c/2 + sum_{x inputs}  (L_ox / 2) x + (T_ox / 2) tanh(x)
@@ -148,6 +156,15 @@ class CoupledSystem:
             self._maps.append(outs)
             self.inputs_of.append(in_names)
             self.outputs_of.append([o["name"] for o in d["outputs"]])
+        # residual/state form (only changes the gemseo discipline, not the mathematical model)
+        self.state_of = {}
+        for i, d in enumerate(payload["discs"]):
+            if d.get("state"):
+                w = d["outputs"][0]["name"]
+                diag = np.array(d["state"], dtype=float)
+                if diag.shape != (self.sizes[w],) or not diag.all() or w in self.inputs_of[i]:
+                    raise ValueError(f"invalid state form for discipline {d['name']}")
+                self.state_of[i] = (w, "r_" + w, diag)
         # offsets of the outputs in the stacked vector v
         self.offset, k = {}, 0
         for name in self.out_names:
@@ -376,10 +393,17 @@ def _harness_class(grammar_type: str):
             self.n_run = 0
             self.n_lin = 0
             self.run_log = [] if keep_log else None
-            in_names = model.inputs_of[index]
-            out_names = model.outputs_of[index]
+            in_names = list(model.inputs_of[index])
+            out_sizes = {n: model.sizes[n] for n in model.outputs_of[index]}
+            self.state = model.state_of.get(index)
+            if self.state is not None:
+                w, r, _ = self.state
+                in_names.append(w)
+                out_sizes[r] = model.sizes[w]
+                self.io.residual_to_state_variable = {r: w}
+                self.io.state_equations_are_solved = True
             self.io.input_grammar.update_from_data({n: np.zeros(model.sizes[n]) for n in in_names})
-            self.io.output_grammar.update_from_data({n: np.zeros(model.sizes[n]) for n in out_names})
+            self.io.output_grammar.update_from_data({n: np.zeros(s) for n, s in out_sizes.items()})
             self.io.input_grammar.defaults.update({n: np.array(defaults[n], dtype=float) for n in in_names})
 
         def _run(self, input_data):
@@ -390,11 +414,24 @@ def _harness_class(grammar_type: str):
                         raise NonFiniteInput(f"discipline {self.name} executed with {k} = {input_data[k]!r}")
             if self.run_log is not None:
                 self.run_log.append({k: np.array(v, dtype=float) for k, v in input_data.items() if k in self.model.inputs_of[self.index]})
-            return self.model.run(self.index, input_data)
+            out = self.model.run(self.index, input_data)
+            if self.state is not None:  # the discipline solves its own state equation: r = M (G(u) - w) = 0
+                w, r, diag = self.state
+                out[r] = diag * (out[w] - out[w])
+            return out
 
         def _compute_jacobian(self, input_names=(), output_names=()):
             self.n_lin += 1
             jac = self.model.partials(self.index, self.io.data)
+            if self.state is not None:
+                w, r, diag = self.state
+                size = self.model.sizes[w]
+                for row in jac.values():
+                    row[w] = np.zeros((next(iter(row.values())).shape[0] if row else size, size))
+                for o in jac:
+                    jac[o][w] = np.zeros((self.model.sizes[o], size))
+                jac[r] = {i: diag[:, None] * b for i, b in jac[w].items()}
+                jac[r][w] = -np.diag(diag)
             if self.jac_format == "sparse":
                 jac = {o: {i: csr_array(b) for i, b in row.items()} for o, row in jac.items()}
             self.jac = jac
@@ -444,6 +481,7 @@ def coupled_systems(
     all_strong: bool | None = None,
     nonlinear: bool | None = None,
     extra_outputs: bool = True,
+    state_form: bool = False,
     q_range: tuple[float, float] = (0.05, 0.3),
     max_size: int = 3,
 ):
@@ -461,6 +499,7 @@ def coupled_systems(
             weakly coupled discipline; None = drawn.
         nonlinear: whether tanh terms are present (None = drawn, 1/3 of the systems).
         extra_outputs: allow a second, non-coupling output on some disciplines.
+        state_form: allow disciplines written in residual / state form (see the module docstring).
     """
     n = draw(st.integers(min_disc, max_disc))
     if all_strong is None:
@@ -535,7 +574,10 @@ def coupled_systems(
                 if draw(st.booleans()) or not glin:
                     glin[name] = _block(draw, sz, all_sizes[name])
             outputs.append({"name": "g" + names[i][1:], "size": sz, "c": [draw(_COEF) for _ in range(sz)], "lin": glin})
-        discs.append({"name": f"D{i}", "jac": draw(st.sampled_from(["dense", "dense", "sparse"])), "outputs": outputs})
+        disc = {"name": f"D{i}", "jac": draw(st.sampled_from(["dense", "dense", "sparse"])), "outputs": outputs}
+        if state_form and i not in reads[i] and draw(st.integers(0, 3)) == 0:
+            disc["state"] = [draw(st.sampled_from([1, 2, -1, 3])) for _ in range(sizes[i])]
+        discs.append(disc)
     order = draw(st.permutations(list(range(n))))
     q = draw(st.sampled_from([0.05, 0.1, 0.2, 0.3]))
     q = min(max(q, q_range[0]), q_range[1])
